@@ -328,6 +328,10 @@ func (r *CheckRun) Run() (code int) {
 			if err == nil {
 				vc.finish()
 				err = vc.Discharge(vc.obls, r.Work, quickMs, slowMs)
+				if err != nil && (strings.Contains(err.Error(), "Sorts ") || strings.Contains(err.Error(), "Sort mismatch") || strings.Contains(err.Error(), "unknown constant")) {
+					// an ill-typed condition: the contract's expressions no longer fit the types in the changed code
+					genFailed = true
+				}
 			}
 			if r.Verbose {
 				fmt.Fprintf(os.Stderr, "unit %s: generation %.1fs (%d feasibility checks), solving %.1fs, %d obligations\n", k, tGen.Seconds(), vc.nfeas, (time.Since(t0u) - tGen).Seconds(), len(vc.obls))
@@ -421,6 +425,9 @@ func (r *CheckRun) Run() (code int) {
 					a.Solver = o.Solver
 				}
 			}
+		}
+		if _, inapplicable := r.genErr[vc.key]; inapplicable {
+			continue
 		}
 		if coverSat == 0 && coverUnknown == 0 && vc.retCount > 0 {
 			vacuity = append(vacuity, vc.key+": no return is reachable")
